@@ -269,7 +269,7 @@ def history(t0: float, n: int, d0: float, d1: float, d2: float, d3: float, tm: b
             act: int, tgt: int, who: int, r: float, a1: float, a2: float) -> bool:
     """
     pre: 2 <= n <= B['n'] and 0 <= d0 <= BIG and 0 <= d1 <= BIG and 0 <= d2 <= BIG and 0 <= d3 <= BIG
-    pre: 0 <= act <= 4 and 0 <= tgt < n and -1 <= who < n
+    pre: 0 <= act <= 4 and 0 <= tgt < n and -1 <= who < n and (tgt == 0 or 1 <= act <= 3)
     pre: -BIG <= t0 <= BIG and -BIG <= r <= BIG and (r >= 0 or act == 3)
     pre: 0 <= a1 <= BIG and 0 <= a2 <= BIG
     pre: who == -1 or not tm
